@@ -27,7 +27,11 @@
 EXTENDS Layout
 
 CONSTANTS MaxParams,     \* "sig": parameters per signature
-          MaxExtra       \* "sig": variable arguments per call
+          MaxExtra,      \* "sig": variable arguments per call
+          AbiDevs        \* deviations of the emittype model that are switched on (subset of AllAbiDevs)
+
+AllAbiDevs == {"ScanAnyLater"}   \* qbe.c:emittype before e12ac22: the scan took ANY later member starting at or before the current
+                                 \* one, also one with a smaller storage unit (`struct { short a:1; char b:3; }` -> `{ b, }`)
 
 Targets == <<"x86_64-sysv", "aarch64", "riscv64">>
 RaiseOf(tg) == tg = "aarch64"
@@ -97,18 +101,19 @@ Strip(t) == IF t.k = "arr" THEN Strip(t.of) ELSE t
 SelIdx(n, P(_)) == LET S[i \in 0..n] == IF i = 0 THEN <<>> ELSE IF P(i) THEN Append(S[i - 1], i) ELSE S[i - 1] IN S[n]
 
 (* look for a subsequent member with a larger storage unit (offs: member offsets, nr members) *)
-RECURSIVE DScan(_, _, _, _)
-DScan(offs, nr, o, cur) ==
+RECURSIVE DScan(_, _, _, _, _)
+DScan(offs, sizes, nr, o, cur) ==
   IF o > nr THEN cur
   ELSE IF offs[o] >= AlignUp(offs[cur] + 1, 8) THEN cur
-  ELSE DScan(offs, nr, o + 1, IF offs[o] <= offs[cur] THEN o ELSE cur)
+  ELSE DScan(offs, sizes, nr, o + 1,
+             IF offs[o] <= offs[cur] /\ ("ScanAnyLater" \in AbiDevs \/ offs[o] + sizes[o] >= offs[cur] + sizes[cur]) THEN o ELSE cur)
 (* skip subsequent members contained within the same storage unit *)
 RECURSIVE DSkip(_, _, _, _)
 DSkip(offs, nr, p, off) == IF p <= nr /\ offs[p] < off THEN DSkip(offs, nr, p + 1, off) ELSE p
 RECURSIVE DLoop(_, _, _, _, _)
 DLoop(offs, sizes, fields, nr, j) ==
   IF j > nr THEN <<>>
-  ELSE LET cur == DScan(offs, nr, j + 1, j)
+  ELSE LET cur == DScan(offs, sizes, nr, j + 1, j)
            off == offs[cur] + sizes[cur]
        IN <<fields[cur]>> \o DLoop(offs, sizes, fields, nr, DSkip(offs, nr, cur + 1, off))
 
@@ -190,7 +195,7 @@ DescrClasses(T, tg) ==
                    THEN {"pointer-beside-float-rv"} ELSE {})
        IN own \cup UNION {DescrClasses(T.ms[i].t, tg) : i \in 1..n}
 
-CurView == [impl |-> TRUE, raise |-> FALSE, devs |-> Devs]
+CurView(tg) == [impl |-> TRUE, raise |-> RaiseOf(tg), devs |-> Devs]     \* cproc's own layout on that target
 
 (* design level, on C06's bounded universe (Layout "mc" mode, at the end of each aggregate) *)
 Inv_Descr ==
@@ -198,16 +203,16 @@ Inv_Descr ==
      \A i \in 1..3 :
         LET tg == Targets[i] T == Current IN
         (DescrClasses(T, tg) = {} /\ ~DevApplies(T)) =>
-           AbiEquiv(CFlat(T, RaiseOf(tg)), QFlat(Descr(T, CurView)), tg)
+           AbiEquiv(CFlat(T, RaiseOf(tg)), QFlat(Descr(T, CurView(tg))), tg)
 
 (* exploration aid: print the aggregates whose model descriptor is not ABI-equivalent, with the reason *)
 Inv_DescrReport ==
   (Mode = "mc" /\ phase = "done") =>
      \A i \in 1..3 :
         LET tg == Targets[i] T == Current
-            C == CFlat(T, RaiseOf(tg)) Q == QFlat(Descr(T, CurView)) IN
+            C == CFlat(T, RaiseOf(tg)) Q == QFlat(Descr(T, CurView(tg))) IN
         (DescrClasses(T, tg) = {} /\ ~DevApplies(T) /\ ~AbiEquiv(C, Q, tg)) =>
-           PrintT("VCASE " \o ToJson([tg |-> tg, t |-> T, d |-> Descr(T, CurView), cs |-> C.size, qs |-> Q.size, ca |-> C.align, qa |-> Q.align,
+           PrintT("VCASE " \o ToJson([tg |-> tg, t |-> T, d |-> Descr(T, CurView(tg)), cs |-> C.size, qs |-> Q.size, ca |-> C.align, qa |-> Q.align,
                                        cc |-> Classify(C, tg), qc |-> QClassify(Q, tg)]))
 
 (* ======================================================================= *)
@@ -287,7 +292,7 @@ Verdict(rec) ==
       tg == rec.tg
       C == CFlat(T, RaiseOf(tg))
       Qa == QFlat(rec.q)
-      M == Descr(T, CurView)
+      M == Descr(T, CurView(tg))
       Qm == QFlat(M)
   IN [i |-> rec.i, tg |-> tg,
       csize |-> C.size, calign |-> C.align, qsize |-> Qa.size, qalign |-> Qa.align,
